@@ -651,4 +651,17 @@ theorem good_receiver {h : Heap} (hwf : WF h) {ws : List Write} (g : Good h.leng
     have h2 : x < h.length := reach_below hwf heq hsx hs
     omega
 
+/-- Executable well-formedness check (for concrete heaps in examples). -/
+def wfb (h : Heap) : Bool :=
+  h.all fun c => c.fields.all fun f =>
+    match f with
+    | .ref (some r) => decide (r < h.length)
+    | _ => true
+
+theorem wfb_sound {h : Heap} (hb : wfb h = true) : WF h := by
+  intro a c ha r hr
+  have hc := List.mem_of_getElem? ha
+  have := List.all_eq_true.mp (List.all_eq_true.mp hb c hc) _ hr
+  simpa using this
+
 end InfluxQL.Heap
